@@ -5,25 +5,29 @@ From TV Require Import Model.Datetime Model.Numbers Model.Tree Model.Write Model
 Require Import Lia ZifyBool ZifyN ZifyNat.
 
 (* ---- induction over constructed values ---------------------------------------------------------- *)
-Lemma BuiltValue_sind (P : value -> Prop) :
-  (forall s d, decor_built d -> P (VScalar s None d)) ->
-  (forall es d, decor_built d -> Forall BuiltValue es -> Forall P es ->
+Lemma BuiltValue_sind (PS : scalar -> Prop) (PK : bytes -> Prop) (P : value -> Prop) :
+  (forall s d, PS s -> decor_built d -> P (VScalar s None d)) ->
+  (forall es d, decor_built d -> Forall (BuiltValue PS PK) es -> Forall P es ->
                 P (VArray (map IValue es) REmpty false d None)) ->
-  (forall l d, decor_built d -> NoDup (map fst l) -> Forall BuiltValue (map snd l) -> Forall P (map snd l) ->
+  (forall l d, decor_built d -> NoDup (map fst l) -> Forall PK (map fst l) ->
+               Forall (BuiltValue PS PK) (map snd l) -> Forall P (map snd l) ->
                P (VInline (mk_inline_items l) REmpty false false d None)) ->
-  forall v, BuiltValue v -> P v.
+  forall v, BuiltValue PS PK v -> P v.
 Proof.
-  intros Hs Ha Hi. fix IH 2. intros v Hv. destruct Hv as [s d Hd | es d Hd Hes | l d Hd Hnd Hl].
-  - apply Hs, Hd.
+  intros Hs Ha Hi. fix IH 2. intros v Hv. destruct Hv as [s d Hps Hd | es d Hd Hes | l d Hd Hnd Hk Hl].
+  - apply Hs; assumption.
   - apply Ha; [exact Hd | exact Hes |].
     induction Hes as [|e es He Hes IHes]; constructor; [apply IH, He | exact IHes].
-  - apply Hi; [exact Hd | exact Hnd | exact Hl |].
+  - apply Hi; [exact Hd | exact Hnd | exact Hk | exact Hl |].
     induction Hl as [|e es He Hes IHes]; constructor; [apply IH, He | exact IHes].
 Qed.
 
 (* ---- the text -------------------------------------------------------------------------------------- *)
 Section Txt.
   Variable ftext : fval -> bytes.
+  Variable PS : scalar -> Prop.
+  Variable PK : bytes -> Prop.
+  Local Notation BuiltValue := (BuiltValue PS PK).
 
   Definition scalar_txt (s : scalar) : bytes :=
     match s with SFloat f => ftext f | _ => scalar_default_repr s end.
@@ -121,11 +125,11 @@ Section Txt.
   Lemma value_size_render : forall v, BuiltValue v -> value_size (render_value ftext v) = value_size v.
   Proof.
     apply BuiltValue_sind.
-    - intros s d _. destruct s; reflexivity.
+    - intros s d _ _. destruct s; reflexivity.
     - intros es d _ _ IH. rewrite render_built_array, !value_size_array. f_equal.
       induction IH as [|e es' He _ IHes]; [reflexivity|].
       cbn [map fold_right]. rewrite !item_size_value, He, IHes. reflexivity.
-    - intros l d _ _ _ IH. rewrite render_built_inline, !value_size_inline. f_equal. unfold mk_inline_items.
+    - intros l d _ _ _ _ IH. rewrite render_built_inline, !value_size_inline. f_equal. unfold mk_inline_items.
       induction l as [|[k e] l IHl]; [reflexivity|].
       cbn [map fst snd] in IH. inversion IH as [|? ? He Hl']; subst.
       cbn [map fold_right fst snd]. rewrite !item_size_value, He, (IHl Hl'). reflexivity.
@@ -177,7 +181,7 @@ Section Txt.
   (* the (key path, value) lines of a constructed inline table: one per entry *)
   Lemma built_not_dotted : forall v, BuiltValue v ->
     match render_value ftext v with VInline _ _ _ true _ _ => False | _ => True end.
-  Proof. intros v H. destruct H as [s d Hd | es d Hd Hes | l d Hd Hnd Hl]; [destruct s|..]; exact I. Qed.
+  Proof. intros v H. destruct H as [s d Hps Hd | es d Hd Hes | l d Hd Hnd Hk Hl]; [destruct s|..]; exact I. Qed.
 
   Lemma inline_values_built fuel l :
     Forall BuiltValue (map snd l) ->
@@ -228,11 +232,7 @@ Section Txt.
       rewrite IH'; [ | unfold l'; discriminate | unfold l' in *; cbn [length] in *; lia ].
       rewrite (Henc (k, e)) by (left; reflexivity). cbn [snd].
       replace (Nat.eqb i (len - 1)) with false by (symmetry; apply Nat.eqb_neq; unfold l' in Hlen; cbn [length] in Hlen; lia).
-      f_equal. unfold l'.
-      change (map (fun kv => (key_new (fst kv), (value_decor (snd kv), txt (snd kv)))) ((k, e) :: (k2, e2) :: l2))
-        with ((key_new k, (value_decor e, txt e)) :: (key_new k2, (value_decor e2, txt e2))
-              :: map (fun kv => (key_new (fst kv), (value_decor (snd kv), txt (snd kv)))) l2).
-      rewrite inl_txt_cons. cbn [Nat.eqb]. unfold key_txt, etxt. rewrite <- !app_assoc. reflexivity.
+      f_equal.
   Qed.
 
   Lemma enc_elems_txt (enc : value -> bytes * bytes -> bytes) (es : list value) :
@@ -255,9 +255,9 @@ Section Txt.
   Theorem encode_value_txt : forall v, BuiltValue v ->
     forall fuel dflt, value_size v < fuel -> encode_value fuel (render_value ftext v) dflt = etxt v dflt.
   Proof.
-    apply (BuiltValue_sind (fun v => forall fuel dflt, value_size v < fuel ->
+    apply (BuiltValue_sind PS PK (fun v => forall fuel dflt, value_size v < fuel ->
                                       encode_value fuel (render_value ftext v) dflt = etxt v dflt)).
-    - intros s d _ fuel dflt Hf. destruct fuel as [|f]; [lia|].
+    - intros s d _ _ fuel dflt Hf. destruct fuel as [|f]; [lia|].
       destruct s; reflexivity.
     - intros es d _ _ IH fuel dflt Hf. destruct fuel as [|f]; [lia|].
       rewrite render_built_array, encode_value_array.
@@ -271,7 +271,7 @@ Section Txt.
           - cbn [map fold_right]. rewrite item_size_value. lia.
           - cbn [map fold_right]. specialize (IHl Hin'). lia. }
         specialize (Hle es Hin). lia.
-    - intros l d _ _ Hl IH fuel dflt Hf. destruct fuel as [|f]; [lia|].
+    - intros l d _ _ _ Hl IH fuel dflt Hf. destruct fuel as [|f]; [lia|].
       rewrite render_built_inline, encode_value_inline. cbv zeta.
       rewrite (inline_values_built _ l Hl).
       unfold etxt, wrap. rewrite txt_inline. cbn [value_decor raw_encode strip_cr filter app].
